@@ -121,6 +121,14 @@ class VLoop(asyncio.SelectorEventLoop):
             return callback(*args)
 
         counted.__wrapped__ = callback  # type: ignore[attr-defined]
+        try:  # keep error reports of the loop readable
+            name = getattr(callback, "__qualname__", None) or getattr(callback, "__name__", None) or repr(callback)
+            owner = getattr(callback, "__self__", None)
+            if owner is not None:
+                name = f"{type(owner).__name__}.{getattr(callback, '__name__', name)}"
+            counted.__qualname__ = counted.__name__ = "counted<" + str(name) + ">"
+        except Exception:
+            pass
         return counted
 
     def _call_soon(self, callback, args, context):  # type: ignore[no-untyped-def]
